@@ -133,7 +133,7 @@ CHECKS = {
         'root is an absolute path or `.`. Path spellings are modelled (std::path equality by components, the OS resolves relative text against the cwd, opendir / '
         'canonicalize follow links), inodes are per node. z3 decides for every link graph that the walk terminates within the unrolling bound, that every entry of every '
         'directory reachable through directories and links-to-directories is reported exactly once, and that the status is 0. Counterexamples are rebuilt with real symlinks.'
-        " (links/above) links may point at the root's parent directory (one level less deep); (links/chains) chains of two links; (root_options) see C01.",
+        " (links/above) links may point at the root's parent directory (one level less deep); (links/chains) chains of two links; (outside/*) the same walker with the search root an INNER node of the abstract file system (node 0 = the root's parent, the other nodes anywhere below it): links to directories outside and above the root, chains whose intermediate link lies outside — rows from outside appear exactly when a reported link (chain) leads there, every real directory once; (root_options) see C01.",
    note=TRUST + 'Assumed: the file-system contract above; link targets are not links themselves (chains outside the bound); targets lie inside the root tree or are dangling '
         '(targets above / outside the root — where the depth arithmetic can underflow — are outside the bound); no depth window; check_file summarised. Bounds: 4/5 nodes.',
    technique=TECH),
